@@ -159,7 +159,9 @@ fn tensor_of(key: &str, fields: &[(u8, Val)], emb: &Emb) -> TensorData {
     for (n, v) in fields {
         d.set(format!("f{n}"), to_tensor_value(v));
     }
-    if key.starts_with("emb:") {
+    // an `_embedding` field is what the embedding slab looks at for emb: keys; on some other keys
+    // it is an ordinary field that must not be treated specially (neither live nor on recovery)
+    if key.starts_with("emb:") || matches!(key, "user:1" | "node:1" | "k") {
         match emb {
             Emb::None => {},
             Emb::Slab(nz) => {
@@ -188,12 +190,20 @@ fn observe(store: &TensorStore) -> State {
         if k.starts_with("_cache:") {
             continue; // documented as non-durable
         }
-        if let Ok(d) = store.get(&k) {
-            let mut f = BTreeMap::new();
-            for (name, v) in d.fields_iter() {
-                f.insert(name.clone(), bitcode::serialize(v).unwrap_or_default());
-            }
-            st.insert(k, f);
+        match store.get(&k) {
+            Ok(d) => {
+                let mut f = BTreeMap::new();
+                for (name, v) in d.fields_iter() {
+                    f.insert(name.clone(), bitcode::serialize(v).unwrap_or_default());
+                }
+                st.insert(k, f);
+            },
+            Err(_) => {
+                // listed by scan but not readable: part of the observable state as well
+                let mut f = BTreeMap::new();
+                f.insert("<listed-by-scan-but-get-fails>".to_string(), Vec::new());
+                st.insert(k, f);
+            },
         }
     }
     st
